@@ -124,7 +124,7 @@ pub fn run(tier: &str, seed: u64) -> i32 {
         "position amounts {1,2,3,1000}, three durations, flows of 11000 over 4 epochs with expansions of 5000; histories bounded by the stated depth (20-epoch histories are not reached)".into(),
     ];
     formula_grid(&mut ev, tier);
-    let depth = if tier == "quick" { 5 } else { 7 };
+    let depth = if tier == "quick" { 5 } else { 6 };
     let cfg = default_cfg("C13", tier, seed, depth);
     if ev.violations.is_empty() {
         ev.add_report(explore(&scenario(tier), &cfg));
